@@ -32,6 +32,10 @@ def shapes():
     yield "multisig1of1", b("CHECKMULTISIG"), lambda sg, k, sg2, k2: [b"", sg, b"\x01", k, b"\x01"]
     yield "multisig1of2", b("CHECKMULTISIG"), lambda sg, k, sg2, k2: [b"", sg, b"\x01", k, k2, b"\x02"]
     yield "multisig2of2", b("CHECKMULTISIGVERIFY") + b"\x51", lambda sg, k, sg2, k2: [b"", sg, sg2, b"\x02", k, k2, b"\x02"]
+    # the same signature and key met twice, by different opcodes (the pair table must not be changed by a look-up)
+    yield "multisig-then-checksig", b("CHECKMULTISIG") + b("DROP") + b("CHECKSIG"), lambda sg, k, sg2, k2: [sg, k, b"", sg, b"\x01", k, b"\x01"]
+    yield "checksig-then-multisig", b("CHECKSIG") + b("DROP") + b("CHECKMULTISIG"), lambda sg, k, sg2, k2: [b"", sg, b"\x01", k, b"\x01", sg, k]
+    yield "checksigadd-then-checksig", b("CHECKSIGADD") + b("DROP") + b("CHECKSIG"), lambda sg, k, sg2, k2: [sg, k, sg, b"", k]
 
 
 def make_jobs(chk):
